@@ -234,8 +234,30 @@ class _Stub(_process_base()):
         self.blocks += 1
         out = np.empty(size, dtype)
         flat = out.reshape(-1)
-        for k in range(flat.shape[0]):
+        m = flat.shape[0]
+        if self.cycle and self.len:
+            k = 0       # whole repetitions of the script are copied
+            while k < m and self.pos != 0:
+                flat[k] = low + self._next(high - low)
+                k += 1
+            if k < m:
+                base = np.array([v if v < high - low else 0
+                                 for v in self.script], dtype) + low
+                reps = (m - k) // self.len
+                if reps:
+                    flat[k:k + reps * self.len] = np.tile(base, reps)
+                    k += reps * self.len
+                while k < m:
+                    flat[k] = low + self._next(high - low)
+                    k += 1
+            return out
+        k = 0
+        while k < m and self.pos < self.len:
             flat[k] = low + self._next(high - low)
+            k += 1
+        if k < m:       # beyond the script: answered with 0
+            flat[k:] = low
+            self.padded += m - k
         return out
 
     # process
